@@ -36,7 +36,8 @@ OBLIGATIONS = [
     'C11.wires_consistent_run',
     # checkIntegrity
     'C11.fuel_enough', 'C11.checkIntegrity_eq_spec', 'C11.checkIntegrity_iff', 'C11.all_driven_accepted',
-    'C11.undriven_rejected', 'C11.checkIntegrity_eq_any_port', 'C11.inout_source_rejected_counterexample',
+    'C11.undriven_rejected', 'C11.checkIntegrity_eq_any_port', 'C11.inout_source_accepted',
+    'C11.bidir_port_raises_attr', 'C11.disconnected_port_raises_attr',     # what Op.ordinary still has to exclude
     # helper developments the above rest on
     'Build.step_keeps', 'Build.step_keepsW', 'Build.SS_run', 'Build.Shape_run', 'Build.WF_run', 'Build.AllReg_run',
     'Build.move_rejected_unchanged',
